@@ -31,7 +31,7 @@ CASE_TIMEOUT_S = 900
 STUBS = []
 PROBES = ['eviction', 'absent_key_lookup', 'absent_then_evict', 'idx_path', 'raw_path', 'rewrite',
           'cache_size_1', 'minus_strand_tx', 'sec_tx', 'demo_multi_isoform', 'invalid_protein_as_noncoding',
-          'unversioned_lookup']
+          'unversioned_lookup', 'non_ascii_gtf', 'corpus_real_reference']
 RULE = ('case = generated annotation (6-14 genes, both strands, Sec, NF tags) or the multi-isoform demo GTF; '
         'history = Hypothesis rule sequence (<=40 steps): lookups of present/absent keys in both pointer '
         'dicts, contains/len/iter, coordinate and sequence API calls, unversioned gene lookup, write->reparse, '
@@ -441,6 +441,20 @@ class Sim:
         with open(path, 'wt') as h:
             GtfIO.write(h, self.mem)
         _, _, _, flag, source = self.cfg
+        # (a) plain parse of what was written: every model, including the coding status the writer records,
+        # must come back as it was (no proteome is consulted here)
+        raw = gtf.GenomicAnnotation()
+        raw.dump_gtf(path, source=source)
+        for t in self.mem.transcripts:
+            if t not in raw.transcripts:
+                raise Violation('gtf-roundtrip', 'gtf-roundtrip:keys', {'missing_tx': t})
+            a, b = digest_tx(self.mem.transcripts[t]), digest_tx(raw.transcripts[t])
+            if a != b or raw.transcripts[t].is_protein_coding is not self.mem.transcripts[t].is_protein_coding:
+                raise Violation('gtf-roundtrip', 'gtf-roundtrip:plain-parse',
+                                {'tx': t, 'first_diff': first_diff(a, b),
+                                 'is_protein_coding': (repr(self.mem.transcripts[t].is_protein_coding),
+                                                       repr(raw.transcripts[t].is_protein_coding))})
+        # (b) the parse + check_protein_coding path used by the commands
         mem2 = ctx.parse_model(path, flag, source)
         if list(mem2.genes) != list(self.mem.genes) or list(mem2.transcripts) != list(self.mem.transcripts):
             raise Violation('gtf-roundtrip', 'gtf-roundtrip:keys',
@@ -541,12 +555,42 @@ def make_machine(ctx, trace_box, stats_box, sources):
     return Machine
 
 
+NON_ASCII_NAMES = ['TR\u03b1', '\u0394Np63', 'na\u00efve', 'IL-1\u03b2', '\u9577\u3044']
+
+
+def add_non_ascii(rng, gtf_text):
+    """Multi-byte UTF-8 in a GTF is legal (gene names, comment lines) and makes byte offsets differ from
+    character offsets: the pointers are byte ranges into the file."""
+    genes = sorted({f.split()[1].strip('";') for l in gtf_text.splitlines() if not l.startswith('#')
+                    for f in l.split('\t')[8].split(';') if f.strip().startswith('gene_id ')})
+    chosen = {g: rng.choice(NON_ASCII_NAMES) + g[-3:] for g in genes if rng.random() < 0.5}
+    out = []
+    if rng.random() < 0.6:
+        out.append('##provider: Universit\u00e9 \u00a9 2024 \u2014 annotation')
+    for l in gtf_text.splitlines():
+        if not l.startswith('#'):
+            for g, name in chosen.items():
+                if f'gene_id {g};' in l or f'gene_id "{g}";' in l:
+                    l = l.rstrip()
+                    l = (l if l.endswith(';') else l + ';') + f' gene_name {name};'
+                    break
+        out.append(l)
+    return '\n'.join(out) + '\n'
+
+
 def case_texts(seed, idx):
     rng = R.case_rng(seed, ENGINE, idx)
-    demo = rng.random() < 0.15
-    if demo:
+    u = rng.random()
+    demo = u < 0.3
+    if u < 0.12:
         texts = {'gtf': (DEMO / 'annotation.gtf').read_text(), 'genome_fa': (DEMO / 'genome.fasta').read_text(),
                  'proteome_fa': (DEMO / 'translate.fasta').read_text()}
+    elif demo:
+        # a downsampled real reference from the corpus (real exon layouts; may contain abutting exons, hence used
+        # like the demo GTF for the store-equivalence rules only)
+        e = rng.choice(cvcase.corpus_entries()[:-1])
+        texts = {'gtf': (e['ref'] / 'annotation.gtf').read_text(), 'genome_fa': (e['ref'] / 'genome.fasta').read_text(),
+                 'proteome_fa': (e['ref'] / e['proteome']).read_text()}
     else:
         texts, _, _ = workload.gen_reference(rng, rng.randint(6, 14))
         # make the proteome interesting for check_protein_coding: drop one entry, put a '*' into another
@@ -561,6 +605,8 @@ def case_texts(seed, idx):
             body = body[:cut] + '*' + body[cut + 1:]
             recs[j] = head + '\n' + body + '\n'
             texts = dict(texts, proteome_fa=''.join('>' + r for r in recs))
+        if rng.random() < 0.4:
+            texts = dict(texts, gtf=add_non_ascii(rng, texts['gtf']), non_ascii=True)
     return texts, demo, rng
 
 
@@ -615,6 +661,10 @@ def run_case(seed, task, tier):
             probes['invalid_protein_as_noncoding'] = probes.get('invalid_protein_as_noncoding', 0) + 1
         if demo:
             probes['demo_multi_isoform'] = probes.get('demo_multi_isoform', 0) + 1
+            if 'FAKE' not in texts['gtf'][:2000] and 'ENST00000614167' not in texts['gtf']:
+                probes['corpus_real_reference'] = probes.get('corpus_real_reference', 0) + 1
+        if texts.get('non_ascii'):
+            probes['non_ascii_gtf'] = probes.get('non_ascii_gtf', 0) + 1
     if stats_box:
         out['sample'] = {'case': idx, 'demo': demo, 'n_histories': len(stats_box),
                          'last_history': trace_box[0][:40] if trace_box[0] else None}
